@@ -53,6 +53,23 @@ var c16Keys = []c16Kind{
 	// keys computed by a callback from a cursor that moves on straight after the constructing call
 	{"LitFunc(cursor=k1)", func() jen.Code { return c16Cursor("k1") }, `"k1"`, false},
 	{"LitFunc(cursor=k2)", func() jen.Code { return c16Cursor("k2") }, `"k2"`, false},
+	// integer keys next to an expression key: the order is that of the texts ("10" < "2*n" < "9")
+	{"Lit(9)", func() jen.Code { return jen.Lit(9) }, "9", false},
+	{"Lit(10)", func() jen.Code { return jen.Lit(10) }, "10", false},
+	{"2*n", func() jen.Code { return jen.Lit(2).Op("*").Id("n") }, "2*n", false},
+	// keys that are clones of ONE base statement (which has spare capacity), each extended
+	{"base.Clone()[0]", func() jen.Code { return c16Base().Clone().Index(jen.Lit(0)) }, "cfg.Limits.Max[0]", false},
+	{"base.Clone()[1]", func() jen.Code { return c16Base().Clone().Index(jen.Lit(1)) }, "cfg.Limits.Max[1]", false},
+}
+
+// c16Base is the statement the clone keys of the Dict being built are cloned from (one per Dict).
+var c16BaseStmt *jen.Statement
+
+func c16Base() *jen.Statement {
+	if c16BaseStmt == nil {
+		c16BaseStmt = jen.Id("cfg").Dot("Limits").Dot("Max")
+	}
+	return c16BaseStmt
 }
 
 var c16CursorValue string
@@ -144,6 +161,7 @@ func c16RenderVariant(d c16Dict, ctl *env.Controller, variant int) jh.Outcome {
 		c16CurCtl = ctl
 		defer func() { c16CurCtl = nil }()
 	}
+	c16BaseStmt = nil
 	dict := jen.Dict{}
 	for _, p := range d.Pairs {
 		k := c16Keys[p[0]].make()
@@ -349,6 +367,8 @@ func c16Space(tier ev.Tier) []c16Dict {
 	ds = append(ds, c16Over(3, []int{1, 3, 4, 11}, []int{0, 8, 9, 10})...)
 	ds = append(ds, c16Over(3, []int{0, 3, 12, 13}, []int{0, 2})...)
 	ds = append(ds, c16Over(3, []int{3, 4, 1}, []int{11, 12, 0})...)
+	ds = append(ds, c16Over(3, []int{14, 15, 16, 1}, []int{0})...)
+	ds = append(ds, c16Over(3, []int{17, 18, 3}, []int{0, 2})...)
 	return ds
 }
 
